@@ -13,7 +13,9 @@
 (*   CopyTo       Copy<T>ToTerraform(obj, &tf)                             *)
 (*   CopyFrom     Copy<T>FromTerraform(tf, obj)                            *)
 (* The next-state relation of the two copy actions is the Impl model       *)
-(* (CopyTo.tla / CopyFrom.tla); Judge applies the Contract to every        *)
+(* (CopyTo.tla / CopyFrom.tla) over Mi, the built message with the named   *)
+(* deviations of the current tree; Judge applies the Contract (over M, the  *)
+(* documented mapping) to every                                            *)
 (* transition and the failing clauses are collected in `viol`              *)
 (* (Impl => Contract at the design level).  A model configuration          *)
 (* restricts behaviours to a Script (sequence of action names) so that     *)
@@ -29,9 +31,9 @@ CONSTANTS Shapes,    \* sequence of [id, d, cfg, root]
           ObjMode,   \* "all" | "prior"   : what SetObj chooses from
           RawMode    \* "plans" | "corrupt" | "reduced" : what LoadRaw chooses from
 
-VARIABLES sh, M, obj, tf, dg, pn, pc, hist, viol, aux
+VARIABLES sh, M, Mi, obj, tf, dg, pn, pc, hist, viol, aux
 
-vars == <<sh, M, obj, tf, dg, pn, pc, hist, viol, aux>>
+vars == <<sh, M, Mi, obj, tf, dg, pn, pc, hist, viol, aux>>
 
 NilObject == VObj(FALSE, FALSE, EmptyFn, EmptyFn, TRUE)
 NoArg == Nil
@@ -43,6 +45,7 @@ Built(i) == BuildRoot(Shapes[i].d, Shapes[i].cfg, Shapes[i].root)
 Init ==
   /\ sh \in {i \in DOMAIN Shapes : Built(i).ok}
   /\ M = Built(sh).m
+  /\ Mi = BuildRootImpl(Shapes[sh].d, Shapes[sh].cfg, Shapes[sh].root).m
   /\ obj = M.zero /\ tf = NilObject /\ dg = <<>> /\ pn = FALSE
   /\ pc = 1 /\ hist = <<>> /\ viol = {} /\ aux = NoAux
 
@@ -56,14 +59,16 @@ Do(e, arg, o2, t2, d2, p2) ==
      /\ viol' = viol \cup j.viol
      \* the memo only serves trace validation (pairing across behaviours); one behaviour never needs it
      /\ aux' = [j.aux EXCEPT !.memo = EmptyFn]
-     /\ UNCHANGED <<sh, M>>
+     /\ UNCHANGED <<sh, M, Mi>>
 
 SetObj(v) == At("SetObj") /\ Do("SetObj", v, v, tf, <<>>, FALSE)
+\* the same operation with the few values that matter as PRIOR content of a target (zero, everything set)
+SetPrior(v) == At("SetPrior") /\ Do("SetObj", v, v, tf, <<>>, FALSE)
 FreshObj == At("FreshObj") /\ Do("FreshObj", NoArg, M.zero, tf, <<>>, FALSE)
 NewEmpty == At("NewEmpty") /\ Do("NewEmpty", NoArg, obj, EmptyObject(M.tt.at), <<>>, FALSE)
 Load(e, p) == At(e) /\ Do(e, p, obj, p, <<>>, FALSE)
-CopyTo == At("CopyTo") /\ LET r == ToMsg(M, obj, tf) IN Do("CopyTo", NoArg, obj, r.tf, r.dg, r.pn)
-CopyFrom == At("CopyFrom") /\ LET r == FromMsg(M, tf, obj) IN Do("CopyFrom", NoArg, r.obj, tf, r.dg, r.pn)
+CopyTo == At("CopyTo") /\ LET r == ToMsg(Mi, obj, tf) IN Do("CopyTo", NoArg, obj, r.tf, r.dg, r.pn)
+CopyFrom == At("CopyFrom") /\ LET r == FromMsg(Mi, tf, obj) IN Do("CopyFrom", NoArg, r.obj, tf, r.dg, r.pn)
 
 \* data the scripts choose from (a model configuration may narrow them)
 ObjChoices == IF ObjMode = "prior" THEN PriorVals(M, Deep) ELSE MsgVals(M, Deep, FALSE)
@@ -74,6 +79,7 @@ RawChoices == CASE RawMode = "corrupt" -> Corrupted(M, Deep)
 
 Next ==
   \/ At("SetObj") /\ \E v \in ObjChoices : SetObj(v)
+  \/ At("SetPrior") /\ \E v \in {M.zero, RichOf(M, UnitsOf(M), M.zero)} : SetPrior(v)
   \/ FreshObj \/ NewEmpty \/ CopyTo \/ CopyFrom
   \/ At("LoadPlan") /\ \E p \in PlanChoices : Load("LoadPlan", p)
   \/ At("LoadRaw") /\ \E p \in RawChoices : Load("LoadRaw", p)
